@@ -56,6 +56,27 @@ def _claim_bounds():
 
 
 @st.composite
+def near_name(draw, name: int):
+    """A NAME that differs from `name` in ONE of its sub-fields only (the same device after re-configuration: another instance number,
+    another unique number, ...)."""
+    b = _claim_bounds()
+    which = draw(st.sampled_from(["uniqueNumber", "deviceInstanceLower", "deviceInstanceUpper", "systemInstance", "manufacturer", "function", "aac"]))
+    if which == "uniqueNumber":
+        return (name & ~0x1FFFFF) | draw(st.integers(*b["uniqueNumber"]))
+    if which == "deviceInstanceLower":
+        return (name & ~(7 << 32)) | draw(st.integers(*b["deviceInstanceLower"])) << 32
+    if which == "deviceInstanceUpper":
+        return (name & ~(0x1F << 35)) | draw(st.integers(*b["deviceInstanceUpper"])) << 35
+    if which == "systemInstance":
+        return (name & ~(0xF << 56)) | draw(st.integers(*b["systemInstance"])) << 56
+    if which == "manufacturer":
+        return (name & ~(0x7FF << 21)) | draw(st.sampled_from([m for m, _ in MANUFACTURERS])) << 21
+    if which == "function":
+        return (name & ~(0xFF << 40)) | draw(st.sampled_from([130, 140, 150, 160, 170])) << 40
+    return name ^ (1 << 63)
+
+
+@st.composite
 def names(draw):
     """64-bit NAMEs whose number fields lie inside the database ranges of PGN 60928 (so the claim itself is decodable)."""
     b = _claim_bounds()
@@ -65,8 +86,16 @@ def names(draw):
                     draw(st.sampled_from([25, 30, 35, 40, 60, 75])), draw(st.integers(*b["systemInstance"])), 4, draw(st.integers(0, 1)))
 
 
+def _next_seq(draw, seqs, k, repeat_seq):
+    """Sequence counter of the next message of stream k: different from the previous one - unless the history is allowed to contain
+    senders that restart (repeat_seq): then the previous counter may come again right after a COMPLETED message."""
+    if repeat_seq and k in seqs and draw(st.integers(0, 2)) == 0:
+        return seqs[k]
+    return draw(st.integers(0, 7).filter(lambda x: x != seqs.get(k)))
+
+
 @st.composite
-def history(draw, min_msgs=4, max_msgs=14, sources=(1, 2, 3, 9), claims=True, single_keys=SINGLE_KEYS, fast_keys=FAST_KEYS, junk=False, name_pool=None, twins=False, time_passes=False, commanded=False):
+def history(draw, min_msgs=4, max_msgs=14, sources=(1, 2, 3, 9), claims=True, single_keys=SINGLE_KEYS, fast_keys=FAST_KEYS, junk=False, name_pool=None, twins=False, time_passes=False, commanded=False, repeat_seq=False):
     """List of frame items with fast-packet frames of different messages interleaved."""
     database = canboat.db()
     n = draw(st.integers(min_msgs, max_msgs))
@@ -88,6 +117,9 @@ def history(draw, min_msgs=4, max_msgs=14, sources=(1, 2, 3, 9), claims=True, si
             msgs.append([{"kind": "warp", "pgn": 0, "src": 0, "dest": 0, "data": b"", "msg": mi, "seconds": draw(st.sampled_from([1.5, 31.0, 61.0, 700.0]))}])
         elif kind == "claim":
             nm = draw(names()) if not name_pool else draw(st.sampled_from(name_pool))
+            earlier = [m[0]["name"] for m in msgs if m[0]["kind"] == "claim" and m[0]["src"] == src]
+            if earlier and not name_pool and draw(st.booleans()):
+                nm = draw(near_name(earlier[-1]))       # the address is claimed again by (almost) the same NAME
             msgs.append([{"kind": "claim", "pgn": 60928, "src": src, "dest": 255, "data": nm.to_bytes(8, "little"), "msg": mi, "name": nm}])
         elif kind == "single":
             d = database.by_key[draw(st.sampled_from(single_keys))]
@@ -116,7 +148,7 @@ def history(draw, min_msgs=4, max_msgs=14, sources=(1, 2, 3, 9), claims=True, si
                 dest = 255 if ((pgn >> 8) & 0xFF) >= 240 else 7
                 if dd.fast:
                     k = (pgn, src, dest)
-                    seq = draw(st.integers(0, 7).filter(lambda x, k=k: x != seqs.get(k)))
+                    seq = _next_seq(draw, seqs, k, repeat_seq)
                     seqs[k] = seq
                     msgs.append([{"kind": "fastframe", "pgn": pgn, "src": src, "dest": dest, "data": fr, "msg": len(msgs) + 1000 * mi, "def": dd.key, "frame": i}
                                  for i, fr in enumerate(wire.segment(payload, seq))])
@@ -128,7 +160,7 @@ def history(draw, min_msgs=4, max_msgs=14, sources=(1, 2, 3, 9), claims=True, si
             payload = p.to_bytes(nb, "little")[:223]
             dest = 255 if ((d.pgn >> 8) & 0xFF) >= 240 else draw(st.sampled_from([255, 7] + list(sources)))
             k = (d.pgn, src, dest)
-            seq = draw(st.integers(0, 7).filter(lambda x, k=k: x != seqs.get(k)))
+            seq = _next_seq(draw, seqs, k, repeat_seq)
             seqs[k] = seq
             msgs.append([{"kind": "fastframe", "pgn": d.pgn, "src": src, "dest": dest, "data": fr, "msg": mi, "def": d.key, "frame": i}
                          for i, fr in enumerate(wire.segment(payload, seq))])
@@ -148,7 +180,7 @@ def history(draw, min_msgs=4, max_msgs=14, sources=(1, 2, 3, 9), claims=True, si
                 hdr = (229 | 3 << 11 | 4 << 13).to_bytes(2, "little")
                 payload = hdr + draw(st.binary(min_size=4, max_size=14))
                 k = (pgn, src, 255)
-                seq = draw(st.integers(0, 7).filter(lambda x, k=k: x != seqs.get(k)))
+                seq = _next_seq(draw, seqs, k, repeat_seq)
                 seqs[k] = seq
                 msgs.append([{"kind": "fastframe", "pgn": pgn, "src": src, "dest": 255, "data": fr, "msg": mi, "junk": jk, "frame": i}
                              for i, fr in enumerate(wire.segment(payload, seq))])
